@@ -1,4 +1,4 @@
-from math import copysign, isnan
+from math import copysign, inf, isnan
 from typing import cast
 
 from xdsl.dialects import arith, builtin
@@ -10,9 +10,25 @@ from xdsl.interpreter import (
     impl,
     register_impls,
 )
+from xdsl.ir import Attribute
 from xdsl.utils.comparisons import to_signed
 from xdsl.utils.exceptions import InterpretationError
 from xdsl.utils.hints import isa
+
+
+def _round_to_type(value: float, typ: Attribute) -> float:
+    """
+    Python floats are doubles: round the result of an operation to the precision
+    of its (narrower) result type.
+    """
+    if isinstance(
+        typ, builtin.Float32Type | builtin.Float16Type | builtin.BFloat16Type
+    ):
+        try:
+            return typ.unpack(typ.pack((value,)), 1)[0]
+        except OverflowError:
+            return copysign(inf, value)
+    return value
 
 
 def _int_bitwidth(
@@ -97,15 +113,15 @@ class ArithFunctions(InterpreterFunctions):
 
     @impl(arith.SubfOp)
     def run_subf(self, interpreter: Interpreter, op: arith.SubfOp, args: PythonValues):
-        return (args[0] - args[1],)
+        return (_round_to_type(args[0] - args[1], op.result.type),)
 
     @impl(arith.AddfOp)
     def run_addf(self, interpreter: Interpreter, op: arith.AddfOp, args: PythonValues):
-        return (args[0] + args[1],)
+        return (_round_to_type(args[0] + args[1], op.result.type),)
 
     @impl(arith.MulfOp)
     def run_mulf(self, interpreter: Interpreter, op: arith.MulfOp, args: PythonValues):
-        return (args[0] * args[1],)
+        return (_round_to_type(args[0] * args[1], op.result.type),)
 
     @impl(arith.MinimumfOp)
     def run_minimumf(
